@@ -361,7 +361,18 @@ func (fr *Frame) havocMods(st *State, ms *modSet) {
 		x.u.fact("(>= " + n + " " + st.ghost[k].T + ")")
 		st.ghost[k] = Val{T: n, S: "Int"}
 	}
+	// deterministic order (fresh names and fact order must not depend on map iteration)
+	var mvars []*types.Var
 	for o := range ms.vars {
+		mvars = append(mvars, o)
+	}
+	sort.Slice(mvars, func(i, j int) bool {
+		if mvars[i].Pos() != mvars[j].Pos() {
+			return mvars[i].Pos() < mvars[j].Pos()
+		}
+		return mvars[i].Name() < mvars[j].Name()
+	})
+	for _, o := range mvars {
 		if cur, ok := st.vars[o]; ok {
 			nv := x.havocVal(o.Name(), o.Type())
 			if x.eng.isCellVar(o) {
@@ -371,13 +382,26 @@ func (fr *Frame) havocMods(st *State, ms *modSet) {
 			}
 		}
 	}
+	// mutex hold counters are not havoc'd at loop heads: every iteration has to leave them as it
+	// found them (obligation loop[..]:lock-balance at the back edge)
 	if ms.heapAll {
 		for _, k := range x.u.heapOrder {
+			if strings.HasPrefix(k, "mutex:") {
+				continue
+			}
 			x.havocHeap(st, k)
 		}
 		x.havocAllSeen = true
 	} else {
+		var hks []string
 		for k := range ms.heapKeys {
+			hks = append(hks, k)
+		}
+		sort.Strings(hks)
+		for _, k := range hks {
+			if strings.HasPrefix(k, "mutex:") {
+				continue
+			}
 			x.havocHeap(st, k)
 		}
 	}
@@ -462,6 +486,26 @@ func (fr *Frame) loopInvariants(st *State, ls *LoopSpec, key string, i string, p
 		} else {
 			x.u.oblige("loop["+key+"]:inv:"+lab+":"+phase, "inv", inv.Src, fr.pos(n.Pos()), st.pc, t)
 		}
+	}
+}
+
+// loopLockBalance: an iteration leaves every mutex hold counter as it found it.
+func (fr *Frame) loopLockBalance(back, head *State, ms *modSet, key string, n ast.Node) {
+	x := fr.x
+	var ks []string
+	for k := range ms.heapKeys {
+		if strings.HasPrefix(k, "mutex:") {
+			ks = append(ks, k)
+		}
+	}
+	sort.Strings(ks)
+	for _, k := range ks {
+		if x.getHeap(back, k) == x.getHeap(head, k) {
+			continue
+		}
+		q := "m$q" + fmt.Sprint(x.nextQ())
+		x.u.oblige("loop["+key+"]:lock-balance:"+strings.TrimPrefix(k, "mutex:"), "lock-balance", "every iteration releases the mutexes it locks", fr.pos(n.Pos()), back.pc,
+			fmt.Sprintf("(forall ((%s Int)) (= (select %s %s) (select %s %s)))", q, x.getHeap(back, k), q, x.getHeap(head, k), q))
 	}
 }
 
@@ -620,6 +664,7 @@ func (fr *Frame) forStmt(st *State, n *ast.ForStmt, label string) flow {
 			i2 := x.bind(Val{T: "(+ " + ih + " 1)", S: "Int"}, "$i").T
 			fr.loopInvariants(back, ls, key, i2, "preserved", n)
 			fr.loopFrame(back, ms, key, "preserved", n)
+			fr.loopLockBalance(back, headSnap, ms, key, n)
 			fr.iterEnsures(back, headSnap, ls, key, ih, n)
 			if variant0 != "" {
 				env := fr.loopEnv(back, i2)
@@ -789,6 +834,7 @@ func (fr *Frame) rangeStmt(st *State, n *ast.RangeStmt, label string) flow {
 		i2 := x.bind(Val{T: "(+ " + ih + " 1)", S: "Int"}, "$i").T
 		fr.loopInvariants(back, ls, key, i2, "preserved", n)
 		fr.loopFrame(back, ms, key, "preserved", n)
+		fr.loopLockBalance(back, bodySt0, ms, key, n)
 		fr.iterEnsures(back, bodySt0, ls, key, ih, n)
 	}
 	out.next = x.merge(exits)
